@@ -66,12 +66,8 @@ def limit_df(df, fs, start=None, stop=None, reset_indices=True):
 
     # Shift sample indices to start at 0
     if reset_indices:
-        df['sample_last_' + side_e] = df['sample_last_' + side_e] - int(fs * start)
-        df['sample_next_' + side_e] = df['sample_next_' + side_e] - int(fs * start)
-        df['sample_' + center_e] = df['sample_' + center_e] - int(fs * start)
-        df['sample_zerox_rise'] = df['sample_zerox_rise'] - int(fs * start)
-        df['sample_zerox_decay'] = df['sample_zerox_decay'] - int(fs * start)
-        df['sample_last_zerox_decay'] = df['sample_last_zerox_decay'] - int(fs * start)
+        for col in [col for col in df.columns if col.startswith('sample_')]:
+            df[col] = df[col] - int(fs * start)
 
     return df
 
